@@ -10,7 +10,10 @@ from ..spec import rfc6455
 from .common import (WSP, WSS, WSC, get_analysis, is_self_attr, self_call, stmt_key, find_assign_nodes, is_test_module)
 
 META = {
-    "explanation": "Acceptance-dominance rules: for the server (the as_future(onConnect) site) and the client (state = OPEN) every "
+    "explanation": "Cell-wise abstract evaluation (sa.core.tiny, rules/c07_cells.py) of the two handshake validators on a well-formed message and "
+                   "its single-point deviations (server: 61 requests incl. origin policy per protocol version, external port, connection limit; "
+                   "client: the request it writes for 12 URL/option cells, then 33 responses incl. one arriving before the request), and of the "
+                   "header-block splitter on values containing non-HTTP line separators.  In addition acceptance-dominance rules: for the server (the as_future(onConnect) site) and the client (state = OPEN) every "
                    "RFC 6455 section 4 obligation must hold as a must-fact at the acceptance node or be a failing test that "
                    "every path to acceptance passes; accept-digest data flow (SHA-1 of key + RFC GUID, base64, compared with the "
                    "digest of the key this client sent); whole-origin regex anchoring; answer-subset-of-offer; request built from "
